@@ -377,35 +377,79 @@ def _cycle_loop_form(ctx, F, rule, inst, body, paths, vec):
     return True
 
 
+def _ordering_follows(p, a, b, result):
+    """does Ordering::<result> for (a, b) follow from the path's decisions (or from the constants themselves)?"""
+    facts = {}
+    for (t, v, s_) in p.conds:
+        if t[0] == "bin" and t[1] in ("Lt", "Le", "Eq", "Ne") and v in (0, 1):
+            facts[(t[1], t[2], t[3])] = v
+
+    def lt(x, y):
+        """True / False when x < y is established / refuted, None otherwise"""
+        nx, ny = pse.fnum(x), pse.fnum(y)
+        if nx is not None and ny is not None:
+            return nx < ny
+        if ("Lt", x, y) in facts:
+            return bool(facts[("Lt", x, y)])
+        if ("Le", y, x) in facts:
+            return not facts[("Le", y, x)]
+        eq = facts.get(("Eq", x, y), facts.get(("Eq", y, x)))
+        ne = facts.get(("Ne", x, y), facts.get(("Ne", y, x)))
+        if eq == 1 or ne == 0:
+            return False
+        return None
+    if result == "Less":
+        return lt(a, b) is True
+    if result == "Greater":
+        return lt(b, a) is True
+    if result == "Equal":
+        return lt(a, b) is False and lt(b, a) is False
+    return False
+
+
 def check_repeat_order(ctx, F, rule):
     """Repeat's Ord: cmp compares as_ordinal; None -> 0, Times(n) -> n, Infinite -> u32::MAX"""
     cmpb = F.one(crate="mina_core", name="cmp", impl_self_adt=REPEAT, impl_trait="core::cmp::Ord")
-    eng = pse.Engine(F, inline=lambda fn, b: False)
-    ps = eng.run(cmpb)
+    # the crate's own helpers (today: as_ordinal) are followed, whatever they are called: on every path the result must
+    # be u32::cmp(ordinal(self), ordinal(other)) with ordinal = None -> 0, Times(n) -> n, Infinite -> u32::MAX
+    eng = pse.Engine(F, inline=lambda fn, bb: F.body_unit[bb["id"]][0] == "mina_core")
+    ps = [p for p in eng.run(cmpb) if p.outcome == "return"]
     ctx.count_paths(ps, cmpb)
-    ok = len(ps) == 1
-    if ok:
-        r = ps[0].ret
-        ok = r[0] == "call" and r[1].endswith("::cmp") and len(r[2]) == 2 and \
-            all(x[0] == "&" and x[1][0] == "call" and x[1][1].endswith("Repeat::as_ordinal") for x in r[2]) and \
-            r[2][0][1][2] == (("&", ("deref", ("param", 1))),) and r[2][1][1][2] == (("&", ("deref", ("param", 2))),)
-    ctx.ob(rule, "Repeat::cmp", ok, "Repeat's order must compare as_ordinal(self) with as_ordinal(other); summary %s"
-           % [show(p.ret) for p in ps], cmpb["span"], what="repeat-order-wrong")
-    ordb = F.one(crate="mina_core", name="as_ordinal", impl_self_adt=REPEAT)
-    ps = eng.run(ordb)
-    ctx.count_paths(ps, ordb)
-    table = {}
+
+    def ordinal(i, var):
+        me = ("deref", ("param", i))
+        return {"None": ("const", "u32", 0), "Infinite": ("const", "u32", 4294967295),
+                "Times": ("field", ("variant", me, "Times"), "0")}.get(var)
+
+    seen = set()
+    ok = bool(ps)
+    got = []
     for p in ps:
-        for (t, v, s) in p.conds:
-            if t[0] == "discr":
-                names = {int(d): n for n, d in t[2]}
-                table[names.get(v, v)] = p.ret
-    ok = set(table) == {"None", "Times", "Infinite"} and table["None"] == ("const", "u32", 0) and \
-        table["Infinite"] == ("const", "u32", 4294967295) and \
-        table["Times"] == ("field", ("variant", ("deref", ("param", 1)), "Times"), "0")
-    ctx.ob(rule, "Repeat::as_ordinal", ok,
-           "as_ordinal must be None->0, Times(n)->n, Infinite->u32::MAX; got %s" % {k: show(v) for k, v in table.items()},
-           ordb["span"], what="repeat-ordinal-wrong")
+        var = {}
+        for (t, v, s_) in p.conds:
+            if t[0] == "discr" and t[1] in (("deref", ("param", 1)), ("deref", ("param", 2))) and not isinstance(v, tuple):
+                var[t[1][1][1]] = {int(d): n for n, d in t[2]}.get(v)
+        r = p.ret
+        got.append(show(r))
+        okp = 1 in var and 2 in var
+        if okp:
+            a, b = ordinal(1, var[1]), ordinal(2, var[2])
+            if r[0] == "call" and r[1].endswith("::cmp") and len(r[2]) == 2:
+                okp = tuple(x[1] if x[0] == "&" else x for x in r[2]) == (a, b)
+            elif pse.unit_variant(r) and pse.unit_variant(r)[0] == "core::cmp::Ordering":
+                # the comparison written out: the constant result must follow from what the path decided about (a, b)
+                okp = _ordering_follows(p, a, b, pse.unit_variant(r)[1])
+            else:
+                okp = False
+        ok = ok and okp
+        if okp:
+            seen.add((var[1], var[2]))
+    ok = ok and len(seen) == 9
+    ctx.ob(rule, "Repeat::cmp", ok,
+           "Repeat's order must compare ordinals (None -> 0, Times(n) -> n, Infinite -> u32::MAX) of self and other for all "
+           "nine variant pairs; decided pairs %s; summaries %s" % (sorted(seen), got[:4]), cmpb["span"],
+           what="repeat-order-wrong")
+    eng = pse.Engine(F, inline=lambda fn, bb: False)
     pc = F.one(crate="mina_core", name="partial_cmp", impl_self_adt=REPEAT)
     ps = eng.run(pc)
     ok = len(ps) == 1 and ps[0].ret[0] == "agg" and ps[0].ret[3] == "Some" and ps[0].ret[4][0][1][0] == "call" \
